@@ -308,6 +308,8 @@ def run(ctx):
     # component order is preserved end to end (formatter, templates, parsers, fold, accessors)
     import maps as _maps
     _maps.rule_O_ORDER(ctx)
+    import tables as _t2
+    _t2.rule_T_IDENT_CLASS(ctx, _t2.Tables(ctx), models=("enum", "lex"))
     ctx.undecided = ["that the reference grammar derives the same tree as the lexical parser for every output (equivalence of two parsers over all strings)",
                      "PEG ordered-choice subtleties (e.g. the statement alternative tried before compound) are not modelled"]
     ctx.assumptions = ["unicodedata general categories P*/S* = pest's PUNCTUATION|SYMBOL", "the frozen reference lexicon was transcribed correctly from the OpenNARS wiki grammar"]
